@@ -609,6 +609,12 @@ def _oracle_run(case, obs):
       out.append((f'{be}-input-deleted', f'{be}: caller buffers deleted (donated) by the call: {o["deleted"][:4]}'))
     if o['changed']:
       out.append((f'{be}-input-changed', f'{be}: caller buffers changed by the call: {o["changed"][:4]}'))
+    if o.get('containers'):
+      out.append((f'{be}-container-changed', f'{be}: the call changed a container the caller passed (length / keys / element '
+                  f'identities differ after the call): {o["containers"][:4]}'))
+    if o.get('repeat') not in (None, 'same'):
+      out.append((f'{be}-repeat-differs', f'{be}: calling again on the very same caller objects {o["repeat"]} '
+                  '(the first call left the inputs in a different state)'))
   seen, uniq = set(), []
   for kv in out:
     if kv[0] not in seen:
@@ -742,7 +748,8 @@ def encode(case, obs):
     rs = [_obs_results(obs[be], wsr) for be in ('jit', 'debug', 'pmap')]
     if any(r is None for r in rs):
       return None
-    ok = not any(obs[be]['deleted'] or obs[be]['changed'] for be in ('jit', 'debug', 'pmap'))
+    ok = not any(obs[be]['deleted'] or obs[be]['changed'] or obs[be].get('containers') or
+                 obs[be].get('repeat') not in (None, 'same') for be in ('jit', 'debug', 'pmap'))
     o = f'ORun {rs[0]} {rs[1]} {rs[2]} {fw.cbool(ok)}'
     return f'({c}, {o})'
   # threads: the global schedule of primitive operations
